@@ -41,6 +41,11 @@ def jobs(tier):
         add('write_job', 'write[%s,slice2d(:,0:1)]' % list(lv), lengths=lv, op=('slice2d', slice(None), slice(0, 1)))
         add('write_job', 'write[%s,slice2d(:,0:2)]' % list(lv), lengths=lv, op=('slice2d', slice(None), slice(0, 2)))
         add('write_job', 'write[%s,slice2d-scalar(0:1,:)]' % list(lv), lengths=lv, op=('slice2d-scalar', slice(0, 1), slice(None)))
+        # negative bounds and steps in either dimension (every selected row keeps at least one column: -1: and ::-1 are never empty)
+        add('write_job', 'write[%s,slice2d(::-1,-1:)]' % list(lv), lengths=lv, op=('slice2d', slice(None, None, -1), slice(-1, None)))
+        add('write_job', 'write[%s,slice2d(:,::-1)]' % list(lv), lengths=lv, op=('slice2d', slice(None), slice(None, None, -1)))
+        add('write_job', 'write[%s,slice2d-scalar(-1:,::-2)]' % list(lv), lengths=lv, op=('slice2d-scalar', slice(-1, None), slice(None, None, -2)))
+        add('write_job', 'write[%s,slice2d-scalar(:5,-1:)]' % list(lv), lengths=lv, op=('slice2d-scalar', slice(None, 5), slice(-1, None)))
         if sum(lv) <= 4:
             add('write_job', 'write[%s,mask-assign]' % list(lv), lengths=lv, op=('mask-assign',))
         for opn in ('add', 'sub', 'mul', 'eq', 'lt', 'ge', 'floordiv', 'mod'):
